@@ -313,6 +313,58 @@ class KDict(Kind):
         return self._dt()
 
 
+_record_sorts: dict[str, object] = {}
+
+
+class KRecord(Kind):
+    """dict used as a record: a fixed set of constant string keys, each optional, with its own value kind
+    (e.g. the K-FAC state dict).  Sort: tuple of (present_i: Bool, value_i)."""
+
+    def __init__(self, fields: dict):
+        self.fields = dict(fields)
+        self.order = list(fields)
+        self.name = 'Record{' + ','.join(f'{k}:{v!r}' for k, v in fields.items()) + '}'
+
+    def _dt(self):
+        if self.name not in _record_sorts:
+            sorts = [(k, self.fields[k].sort()) for k in self.order]
+            dt = z3.Datatype('Rec_' + str(len(_record_sorts)))
+            args = []
+            for i, (k, srt) in enumerate(sorts):
+                args += [(f'p{i}', z3.BoolSort()), (f'v{i}', srt)]
+            dt.declare('mk', *args)
+            _record_sorts[self.name] = dt.create()
+        return _record_sorts[self.name]
+
+    def sort(self):
+        return self._dt()
+
+    def present(self, term, key):
+        i = self.order.index(key)
+        return self._dt().accessor(0, 2 * i)(term)
+
+    def value(self, term, key):
+        i = self.order.index(key)
+        return self._dt().accessor(0, 2 * i + 1)(term)
+
+    def with_field(self, term, key, present, value_term):
+        dt = self._dt()
+        args = []
+        for i, k in enumerate(self.order):
+            if k == key:
+                args += [present, value_term]
+            else:
+                args += [dt.accessor(0, 2 * i)(term), dt.accessor(0, 2 * i + 1)(term)]
+        return dt.mk(*args)
+
+    def empty(self):
+        dt = self._dt()
+        args = []
+        for i, k in enumerate(self.order):
+            args += [z3.BoolVal(False), z3.Const(fresh_name('recjunk'), self.fields[k].sort())]
+        return dt.mk(*args)
+
+
 # --------------------------------------------------------------------------- values
 class V:
     """A symbolic value: kind + z3 term."""
